@@ -76,6 +76,32 @@ func fieldLoad(v ssa.Value, name string) bool {
 	return st != nil && st.Field(fa.Field).Name() == name
 }
 
+// fieldLoadUnconverted: v is the field itself (boxed into an interface at most), not a conversion of it. The
+// expectation must enter the comparison in its own type: converting it (string → []byte) instead of the produced
+// data changes what testify calls equal (an empty expectation no longer equals a nil result).
+func fieldLoadUnconverted(v ssa.Value, name string) bool {
+	for i := 0; i < 4; i++ {
+		switch x := v.(type) {
+		case *ssa.MakeInterface:
+			v = x.X
+		case *ssa.ChangeInterface:
+			v = x.X
+		default:
+			i = 4
+		}
+	}
+	u, ok := v.(*ssa.UnOp)
+	if !ok || u.Op != token.MUL {
+		return false
+	}
+	fa, ok := u.X.(*ssa.FieldAddr)
+	if !ok {
+		return false
+	}
+	st := structOf(fa.X.Type())
+	return st != nil && st.Field(fa.Field).Name() == name
+}
+
 // derivesFrom: v is x or a conversion/boxing of x.
 func derivesFrom(v, x ssa.Value) bool {
 	for i := 0; i < 8; i++ {
@@ -392,6 +418,8 @@ func ruleC20Helper(e *Env, h helperSpec) {
 			e.S.Bad("C20.hooks", site, "hooks", "Before must precede and After must follow the marshal call", pos, "")
 		case bypasses(safe.Block(), after.Block()):
 			e.S.Bad("C20.hooks", site, "hooks", "some path from the marshal call to the next case does not run the After hook: a failing After hook goes unreported on that path", e.posOf(after), "")
+		case !sameCase(before, before.Block()) || !sameCase(after, before.Block()):
+			e.S.Bad("C20.hooks", site, "hooks", "a hook is not given the address of the case value the helper itself reads (the loop's own copy): what the hook writes into the case is lost, or what the helper reads is stale", pos, "a Before hook that sets Data")
 		case !checked(before) || !checked(after):
 			e.S.Bad("C20.hooks", site, "hooks", "a hook's error is not asserted with NoError on t, or its failure does not skip the case", pos, "")
 		case cfc == nil || !hasRecoverDefer(cfc):
@@ -406,7 +434,7 @@ func ruleC20Helper(e *Env, h helperSpec) {
 		isT:      isT,
 		isErr:    func(v ssa.Value) bool { return v == errV },
 		isData:   isData,
-		isExpect: func(v ssa.Value) bool { return fieldLoad(v, expectField) },
+		isExpect: func(v ssa.Value) bool { return fieldLoadUnconverted(v, expectField) },
 		isPred:   func(v ssa.Value) bool { return fieldLoad(v, "Error") },
 	}
 	vf, vroles := fn, roles
@@ -1070,6 +1098,73 @@ func ruleC20Support(e *Env) {
 			e.S.Bad(rule, site, "helper.New", "with a TypeHelper the target is not helper.New(value)", e.Pos(fn), "")
 		}
 	}
+	// ---- castToFunc: which form (T or *T) provides the interface is probed on the case value itself — for an
+	// interface-typed T the dynamic type of the value decides, a zero T has none.
+	if fn := e.Fn(rule, "test", "castToFunc"); fn != nil && len(fn.Params) == 1 {
+		site := flow.FnName(fn)
+		value := fn.Params[0]
+		spill := func(v ssa.Value) bool { // the local the parameter is spilled into (and nothing else is stored there)
+			a, ok := v.(*ssa.Alloc)
+			if !ok {
+				return false
+			}
+			n := 0
+			for _, r := range *a.Referrers() {
+				if st, ok := r.(*ssa.Store); ok && st.Addr == ssa.Value(a) {
+					if st.Val != ssa.Value(value) {
+						return false
+					}
+					n++
+				}
+			}
+			return n == 1
+		}
+		ofParam := func(v ssa.Value) bool {
+			for i := 0; i < 4; i++ {
+				switch y := v.(type) {
+				case *ssa.MakeInterface:
+					v = y.X
+					continue
+				case *ssa.ChangeType:
+					v = y.X
+					continue
+				case *ssa.ChangeInterface:
+					v = y.X
+					continue
+				}
+				break
+			}
+			if v == ssa.Value(value) || spill(v) {
+				return true
+			}
+			if ld, ok := v.(*ssa.UnOp); ok && ld.Op == token.MUL {
+				return spill(ld.X)
+			}
+			return false
+		}
+		probes, bad := 0, ""
+		var badAt ssa.Instruction
+		for _, b := range fn.Blocks {
+			for _, in := range b.Instrs {
+				ta, ok := in.(*ssa.TypeAssert)
+				if !ok {
+					continue
+				}
+				probes++
+				if !ofParam(ta.X) {
+					bad, badAt = ta.X.String(), in
+				}
+			}
+		}
+		switch {
+		case bad != "":
+			e.S.Bad(rule, site, "probe", "the interface is probed on "+bad+", not on the case value or its address: for an interface-typed T (dynamic type decides) the answer differs from what the returned accessor will meet", e.posOf(badAt), "T an interface type holding a value that implements I")
+		case probes < 2:
+			e.S.Unk(rule, site, "probe", "the two probes (value form, pointer form) were not recognised", e.Pos(fn))
+		default:
+			e.S.Ok(rule, site, "probe", "both forms are probed on the parameter itself: any(value).(I), any(&value).(I)", e.Pos(fn))
+		}
+	}
 	// ---- helperAssertEmpty / helperAssertEqual
 	for _, h := range []struct {
 		name, assert, method string
@@ -1130,4 +1225,40 @@ func ruleC20Support(e *Env) {
 			e.S.Ok(rule, site, "assertion", "helper == nil ⇒ "+h.assert[strings.LastIndex(h.assert, "/")+1:]+"(t, values…); otherwise helper."+h.method+"(t, values…)", e.Pos(fn))
 		}
 	}
+}
+
+// sameCase: the hook call receives the address of the variable from which the helper, from the Before hook on, loads
+// the case's Data / Value / Error (every such FieldAddr dominated by the Before hook uses that same variable).
+func sameCase(hook *ssa.Call, from *ssa.BasicBlock) bool {
+	if len(hook.Call.Args) < 2 {
+		return false
+	}
+	base := hook.Call.Args[1]
+	fn := hook.Parent()
+	caseT := structOf(base.Type())
+	if caseT == nil {
+		return false
+	}
+	for _, b := range fn.Blocks {
+		if !(b == from || from.Dominates(b)) {
+			continue
+		}
+		for _, in := range b.Instrs {
+			fa, ok := in.(*ssa.FieldAddr)
+			if !ok {
+				continue
+			}
+			st := structOf(fa.X.Type())
+			if st == nil || !types.Identical(st, caseT) {
+				continue
+			}
+			switch st.Field(fa.Field).Name() {
+			case "Data", "Value", "Error", "After":
+				if fa.X != base {
+					return false
+				}
+			}
+		}
+	}
+	return true
 }
